@@ -3,6 +3,7 @@ package worlds
 import (
 	"encoding/hex"
 	"fmt"
+	"math"
 	"sort"
 
 	"github.com/DataDog/sketches-go/ddsketch"
@@ -221,6 +222,21 @@ func (x *fleetExec) messageFromBytes(data []byte, spec engine.Node) *kmsg {
 	}
 	if _, ok := refmodel.GranOf(c.Zero); !ok {
 		return nil
+	}
+	// ... as sums of the individual weights of the stream (repeated indexes and blocks add up): the
+	// granule is that of the finest single weight, not of the rounded sums
+	total := c.Zero
+	for _, w := range c.Pos {
+		total += w
+	}
+	for _, w := range c.Neg {
+		total += w
+	}
+	if c.NotDyadic || c.MinGran < -45 || (total+1)*math.Ldexp(1, -c.MinGran) >= math.Ldexp(1, refmodel.BudgetBits) {
+		return nil
+	}
+	if c.MinGran < model.Pos.Gran {
+		model.Pos.Gran = c.MinGran
 	}
 	for _, b := range blocks {
 		if b.Type == refmodel.DocTypePositive || b.Type == refmodel.DocTypeNegative {
